@@ -14,3 +14,15 @@ func init() {
 		Assumptions: []string{"encoding/xml marshals exactly the tagged fields", "reader functions are those statically reachable from (*Document).parseDocument"},
 	}
 }
+
+func init() {
+	props["C18"] = PropSpec{Title: "Rendering a document template changes only its placeholders", Explanation: "tmp", Rules: []Rule{{"clone-cover/map/pure", "template clone functions copy every field", ruleCloneDocument}}}
+	props["C14"] = PropSpec{Title: "Style inheritance", Explanation: "tmp", Rules: []Rule{{"clone", "style clone", ruleCloneStyle}, {"merge", "m", ruleMerge}, {"recur", "r", ruleRecurGuard}, {"noreg", "n", ruleNoRegistryWrite}}}
+	props["C09"] = PropSpec{Title: "Tables", Explanation: "tmp", Rules: []Rule{{"copy", "CopyTable", ruleCopyTable}}}
+}
+
+func init() {
+	props["C02"] = PropSpec{Title: "rels", Explanation: "tmp", Rules: []Rule{{"fresh", "f", ruleFreshRelID}, {"attach", "a", ruleRelAttach}, {"refflow", "r", ruleRefFlow}}}
+	props["C10"] = PropSpec{Title: "img", Explanation: "tmp", Rules: []Rule{{"media", "m", ruleMediaFresh}}}
+	props["C11"] = PropSpec{Title: "hf", Explanation: "tmp", Rules: []Rule{{"keyed", "k", func(r *Run) { ruleKeyedInsert(r, nil) }}}}
+}
